@@ -195,6 +195,26 @@ func drawCase(t *rapid.T) caseT {
 		op := opSpec{}
 		op.Kind = kinds[pick(t, "op", len(kinds))]
 		op.Repo = pickName("target", 88)
+		// operations on bundles / labels / entries: prefer a repository that has some
+		var withFiles, withLabels []string
+		for _, r := range c.Repos {
+			nf := 0
+			for _, b := range r.Bundles {
+				nf += len(b.Pick)
+			}
+			if nf > 0 {
+				withFiles = append(withFiles, r.Name)
+			}
+			if len(r.Labels) > 0 {
+				withLabels = append(withLabels, r.Name)
+			}
+		}
+		if (op.Kind == "delfiles" || op.Kind == "delbundle") && len(withFiles) > 0 && pick(t, "target_rich", 100) < 80 {
+			op.Repo = withFiles[pick(t, "target_withfiles", len(withFiles))]
+		}
+		if op.Kind == "dellabel" && len(withLabels) > 0 && pick(t, "target_rich", 100) < 80 {
+			op.Repo = withLabels[pick(t, "target_withlabels", len(withLabels))]
+		}
 		switch op.Kind {
 		case "rename":
 			op.New = pickName("newname", 25)
@@ -223,10 +243,14 @@ func drawCase(t *rapid.T) caseT {
 	return c
 }
 
-// pick draws an index in [0,n) without rapid's bias towards small values (a large drawn number
-// reduced modulo n); it still shrinks towards 0
+// pick draws an index in [0,n) without rapid's bias towards small values: the drawn number goes
+// through a bijective mixer (mix(0) = 0, so cases still shrink towards index 0) before the modulo
 func pick(t *rapid.T, label string, n int) int {
-	return int(rapid.Uint64().Draw(t, label) % uint64(n))
+	z := rapid.Uint64().Draw(t, label)
+	z = (z ^ (z >> 30)) * 0xBF58476D1CE4E5B9
+	z = (z ^ (z >> 27)) * 0x94D049BB133111EB
+	z ^= z >> 31
+	return int(z % uint64(n))
 }
 
 func seq(n int) []int {
